@@ -34,6 +34,12 @@ DECISION_TARGET = {
 
 
 def run(ctx):
+    _run(ctx)
+    import witness
+    witness.report(ctx, "C08")
+
+
+def _run(ctx):
     rep = ctx.report
     prog = ctx.prog("default")
     cg = callgraph(prog)
